@@ -4,8 +4,13 @@
    binary printed, its exit status.                                                              *)
 EXTENDS Cli, Json, IOUtils, TLCExt
 Rec == ndJsonDeserialize(IOEnv.TRACE)
+\* how the tool spells each single unit (measured: `1 <unit>`, `2 <unit>`), and the symbols of unit display
+EnvNames == JsonDeserialize(IOEnv.NAMES)
+EnvSyms == JsonDeserialize(IOEnv.SYMS)
+KnownUnits(r) == \A i \in 1..Len(r.results) : \A j \in 1..Len(r.results[i].u) : r.results[i].u[j][1] \in DOMAIN EnvNames
 Check(r) ==
   IF r.lib_panic # "" \/ r.lib_parse_error # "" THEN <<>>        \* nothing computed: C11's subject
+  ELSE IF ~KnownUnits(r) THEN <<"unknown-unit">>
   ELSE LET m == Matches(r.stdout, r.results, IF r.mode = "describe" THEN r.descs ELSE <<>>, r.mode = "exact") IN
        (IF m # "" THEN <<m>> ELSE <<>>) \o (IF r.exit # 0 THEN <<"exit-status">> ELSE <<>>)
 VARIABLES l
